@@ -394,7 +394,9 @@ def power_divergence(X, Y, Z, data, boolean=True, lambda_="cressie-read", **kwar
                 c, _, d, _ = stats.chi2_contingency(contingency, lambda_=lambda_)
                 chi += c
                 dof += d
-        p_value = 1 - stats.chi2.cdf(chi, df=dof)
+        # If no stratum had a testable (non-degenerate) table, there is no evidence against
+        # independence (chi2.cdf is nan for df=0); same as chi2_contingency for dof=0.
+        p_value = 1 - stats.chi2.cdf(chi, df=dof) if dof > 0 else 1.0
 
     # Step 4: Return the values
     if boolean:
